@@ -34,6 +34,13 @@ def quoteEndAux (quoted escaped : Bool) : Bytes → Option (Bool × Bool)
 
 def quoteEnd (quoted : Bool) (a : Bytes) : Option Bool := (quoteEndAux quoted false a).map (·.1)
 
+/-- What a relay client puts on the wire for one transaction after the handshake (pipelined or
+    not, these are the bytes): MAIL, one RCPT per recipient, DATA, the message as `DataSender`
+    frames the parts it is given (`SmtpRelayClient._send_envelope`: header block, body). -/
+def rcptBytes (rs : List Bytes) : Bytes := (rs.map fun r => buildRcpt r ++ CRLF).flatten
+def hopBytes (a : Bytes) (rs : List Bytes) (parts : List Bytes) : Bytes :=
+  buildMail a none ++ CRLF ++ (rcptBytes rs ++ ([68, 65, 84, 65] ++ CRLF ++ Data.send parts))
+
 /-- Addresses that survive the hop: every `>` is inside a double-quoted run, the quotes are
     balanced (a backslash-escaped quote inside a run does not count), there is no line break in it (it is one command line). -/
 def CleanAddr (a : Bytes) : Prop := quoteEnd false a = some false ∧ ∀ b ∈ a, b ≠ 10
